@@ -129,6 +129,15 @@ def lane(ctx):
     st = {"paths": 1, "paths_reached_assertion": 1, "paths_infeasible": 0, "queries": 1, "obligations": 1, "discharged": 0, "inconclusive": [],
           "n_inconclusive": 0, "labels": {"stage lock present => every file the skip branch reads is complete": 1}, "excluded": {}, "known_hits": {},
           "samples": [{"label": "recorded file-system event trace of collect_reads_in_parallel", "witness": {"events": events, "result": out}}]}
+    if stage == "sample":
+        # a start WITHOUT --resume must not trust per-chromosome locks of an earlier, killed attempt in the same folder
+        st["obligations"] += 1
+        st["labels"]["a fresh start removes the per-chromosome locks of earlier attempts"] = 1
+        if c07_driver.STALE_LOCKS_LEFT:
+            st["cex"] = {"label": "a fresh (non --resume) start leaves stale per-chromosome locks behind: a later --resume would load another run's reads",
+                         "model": {"stale_locks": True}, "detail": {"left": list(c07_driver.STALE_LOCKS_LEFT)}}
+            return st
+        st["discharged"] += 1
     verdict, k, detail = analyse(events, stage)
     st["solver_s"] = detail.get("solver_s", 0) if isinstance(detail, dict) else 0
     st["crash_points_modelled"] = len(events) + 1
@@ -170,6 +179,10 @@ def lane(ctx):
 
 
 def replay_custom(inst, case):
+    if case["model"].get("stale_locks"):
+        record(inst.meta.get("stage", "sample"))
+        left = list(c07_driver.STALE_LOCKS_LEFT)
+        return bool(left), "stale locks left after a fresh start: %s" % left
     bad, text = replay(case["model"]["crash_after_event"], inst.meta.get("stage", "collect"))
     return bad, text
 
